@@ -112,6 +112,7 @@ class Interp:
         self.objects = plan["objects"]
         self.live = {}
         self.inputs = {}
+        self.cursors = {}  # cursor id -> {"it": iterator, "pos": items taken so far, "done": bool}
 
     # -- construction
     def ensure(self, name, table=None):
@@ -198,6 +199,67 @@ class Interp:
         except Exception as e:
             return None, dumps(canon(e))
         return res, cjson(res)
+
+    # -- lazily consumed answers (iterators stepped across several steps of the history)
+    @staticmethod
+    def _take(itr, n):
+        """Take up to n items (None = drain).  Returns (items, end) with end 'more' | 'stop' | canonical exception."""
+        import warnings
+
+        items = []
+        with warnings.catch_warnings():
+            warnings.simplefilter("ignore")
+            while n is None or len(items) < n:
+                try:
+                    items.append(canon(next(itr)))
+                except StopIteration:
+                    return items, "stop"
+                except Exception as e:
+                    return items, canon(e)
+        return items, "more"
+
+    def open_cursor(self, cur, objname, opname, args, take):
+        """Invoke lazily; if the answer is an iterator keep it as a cursor and take the first items.
+        Returns (is_cursor, canonical answer)."""
+        try:
+            obj = self.ensure(objname)
+            kind = self.objects[objname]["kind"]
+            rargs = [self.resolve(a) for a in args]
+            res = ops.invoke(kind, opname, obj, rargs, lazy=True)
+        except Exception as e:
+            return False, dumps(canon(e))
+        if not hasattr(res, "__next__"):
+            return False, cjson(res)
+        items, end = self._take(res, take)
+        self.cursors[cur] = {"it": res, "pos": len(items), "done": end != "more"}
+        return True, dumps({"#": "slice", "items": items, "end": end})
+
+    def resume_cursor(self, cur, take):
+        c = self.cursors.get(cur)
+        if c is None or c["done"]:
+            return None, None
+        a = c["pos"]
+        items, end = self._take(c["it"], take)
+        c["pos"] += len(items)
+        c["done"] = end != "more"
+        return [a, None if take is None else a + take], dumps({"#": "slice", "items": items, "end": end})
+
+    def answer_slice(self, objname, opname, args, sl):
+        """What a consumer that drains the same expression alone sees between positions sl[0] and sl[1]."""
+        try:
+            obj = self.ensure(objname)
+            kind = self.objects[objname]["kind"]
+            rargs = [self.resolve(a) for a in args]
+            res = ops.invoke(kind, opname, obj, rargs, lazy=True)
+        except Exception as e:
+            return dumps(canon(e))
+        if not hasattr(res, "__next__"):
+            return cjson(res)
+        items, end = self._take(res, None)
+        a, b = sl
+        if b is None or b > len(items):
+            return dumps({"#": "slice", "items": items[a:], "end": end})
+        return dumps({"#": "slice", "items": items[a:b], "end": "more"})
 
     def observe(self, name):
         """Observable state of an operand as the property names it: dictionary form, equality, hash, identifier."""
@@ -320,7 +382,21 @@ def world_main(plan):
         for n in opers:
             c = snap_cache.get(n)
             before[n] = c[1] if c and c[0] == fam_version.get(fams[n], 0) else it.snapshot(n)
-        res, ans = it.answer(st["obj"], st["op"], st.get("args", []))
+        if "resume" in st:
+            sl, ans = it.resume_cursor(st["resume"]["cur"], st["resume"]["take"])
+            if sl is None:
+                rec["skipped"] = True
+                recs.append(rec)
+                continue
+            rec["slice"] = sl
+            res = None
+        elif "lazy" in st:
+            is_cur, ans = it.open_cursor(st["lazy"]["cur"], st["obj"], st["op"], st.get("args", []), st["lazy"]["take"])
+            if is_cur:
+                rec["slice"] = [0, st["lazy"]["take"]]
+            res = None
+        else:
+            res, ans = it.answer(st["obj"], st["op"], st.get("args", []))
         rec["ans"] = ans
         for f in set(fams.values()):
             fam_version[f] = fam_version.get(f, 0) + 1
@@ -349,9 +425,12 @@ def world_main(plan):
     return {"recs": recs, "end": end, "pid": os.getpid()}
 
 
-def pristine_main(plan, objname, opname, args):
-    """Runs in a pristine child: evaluate one expression on freshly built objects."""
+def pristine_main(plan, objname, opname, args, sl=None):
+    """Runs in a pristine child: evaluate one expression on freshly built objects (``sl``: the part of a lazily
+    consumed answer between two positions)."""
     it = Interp(plan)
+    if sl is not None:
+        return it.answer_slice(objname, opname, args, sl)
     _, ans = it.answer(objname, opname, args)
     return ans
 
@@ -390,10 +469,10 @@ def _twins(x):
     return out
 
 
-def expr_key(plan, objname, opname, args):
+def expr_key(plan, objname, opname, args, sl=None):
     names = [objname] + _refs(args) + [x["n"] for x in _twins(args)]
     clo = closure(plan, names)
-    blob = json.dumps([sorted(clo.items()), objname, opname, args], sort_keys=True, default=str)
+    blob = json.dumps([sorted(clo.items()), objname, opname, args] + ([sl] if sl is not None else []), sort_keys=True, default=str)
     return hashlib.sha256(blob.encode()).hexdigest()
 
 
